@@ -141,8 +141,421 @@ def fam_guard(ctx):
     return f
 
 
+# --------------------------------------------------------------------------- T2: statistics → divisions / sort index / lengths
+#
+# The real reader expressions are instantiated with a pre-filled `_dataset_info_cache` operand, so every
+# function between the pyarrow objects and the planner's answer runs for real: `load_statistics`,
+# `_collect_statistics_plan`, `_extract_stats`, `_aggregate_statistics_to_file` (`_agg_dicts`,
+# `_aggregate_columns`), `_divisions_from_statistics`, `_division_from_stats`, `_fragment_sort_index`,
+# `fragments`, `_divisions`, `_get_lengths`, `ReadParquet._simplify_up(Lengths/Len)`; for the fsspec reader `_plan`,
+# `_align_statistics`, `_aggregate_row_groups`, `_calculate_divisions` (+ dask's `sorted_columns`), `_divisions`,
+# `_get_lengths`, `_update_length_statistics`.  Only the fragments (`.metadata.to_dict()`) and the fsspec engine's
+# `_construct_collection_plan` are stubs delivering generated statistics.
+
+_STUB_N = [0]
+
+
+class _StubMeta:
+    def __init__(self, d):
+        self._d = d
+
+    def to_dict(self):
+        return self._d
+
+
+class _StubFragment:
+    def __init__(self, d):
+        self.metadata = _StubMeta(d)
+
+
+def _stub_meta_frame():
+    return pd.DataFrame({"a": pd.Series([], dtype="int64")}, index=pd.Index([], dtype="int64", name="idx"))
+
+
+def _raw_dict(numrows, rgs):
+    """`fragment.metadata.to_dict()` of a file with the given row groups [(stats, rows)]:
+    stats 'X' = no statistics object, 'N' = has_min_max False, (mn, mx)."""
+    out = {"num_rows": numrows, "num_row_groups": len(rgs), "serialized_size": 100, "row_groups": []}
+    for st, rows in rgs:
+        if st == "X":
+            stats = None
+        elif st == "N":
+            stats = {"min": None, "max": None, "null_count": rows, "num_values": 0, "distinct_count": None}
+        else:
+            stats = {"min": st[0], "max": st[1], "null_count": 0, "num_values": rows, "distinct_count": None}
+        other = {"min": 0, "max": 1, "null_count": 0, "num_values": rows, "distinct_count": None}
+        cols = [
+            {"num_values": rows, "total_compressed_size": 10, "total_uncompressed_size": 20, "path_in_schema": "a", "statistics": other},
+            {"num_values": rows, "total_compressed_size": 10, "total_uncompressed_size": 20, "path_in_schema": "idx", "statistics": stats},
+        ]
+        out["row_groups"].append({"num_rows": rows, "total_byte_size": 30, "sorting_columns": None, "columns": cols})
+    return out
+
+
+def _enc_mm(st):
+    return st if isinstance(st, str) else f"{st[0]}_{st[1]}"
+
+
+def _enc_files(files):
+    if not files:
+        return "-"
+    return ";".join(f"{n}:" + "/".join(f"{_enc_mm(st)}.{rows}" for st, rows in rgs) for n, rgs in files)
+
+
+def _enc_sel(sel):
+    return "N" if sel is None else ("-" if not sel else ",".join(map(str, sel)))
+
+
+def _ints(xs):
+    xs = list(xs)
+    return "-" if not xs else ",".join(str(int(x)) for x in xs)
+
+
+def _render_divout(divs, order):
+    divs = list(divs)
+    o = None if order is None else [int(i) for i in order]
+    if all(d is None for d in divs):
+        return f"U {len(divs) - 1}|" + ("N" if o is None else _ints(o))
+    return "K " + _ints(divs) + "|" + ("N" if o is None else _ints(o))
+
+
+def _literal(x):
+    from dask_expr._expr import Literal
+
+    if x is None:
+        return None
+    assert isinstance(x, Literal), x
+    return x.operand("value")
+
+
+def _arrow_real(files, calc, sel, filters):
+    """the real arrow-reader pipeline on stub fragments, rendered like Driver/Parquet.lean `arrowstats`"""
+    from dask.base import tokenize
+    from dask_expr._expr import Lengths
+    from dask_expr._reductions import Len
+    from dask_expr.io import parquet as pqm
+
+    _STUB_N[0] += 1
+    finfos = [f"verif-c18-stub-{os.getpid()}-{_STUB_N[0]}-{j}" for j in range(len(files))]
+    frags = [_StubFragment(_raw_dict(n, rgs)) for n, rgs in files]
+    info = {"checksum": f"verif-c18-{_STUB_N[0]}", "base_meta": _stub_meta_frame(), "fragments": frags, "all_files": finfos,
+            "using_metadata_file": False, "schema": None}
+    e = pqm.ReadParquetPyarrowFS("/nonexistent/verif-c18", calculate_divisions=calc, filters=[("a", ">", 0)] if filters else None,
+                                 _partitions=sel, kwargs={}, _dataset_info_cache=info)
+    try:
+        try:
+            if filters:
+                raise LookupError  # fragments_unsorted asks the pyarrow dataset once filters are set
+            agg = e.aggregated_statistics
+            parts = []
+            for fstat in agg:
+                if "columns" not in fstat:
+                    parts.append(f"{fstat['num_rows']}:-")
+                    continue
+                col = [c for c in fstat["columns"] if c["path_in_schema"] == "idx"][0]["statistics"]
+                parts.append(f"{fstat['num_rows']}:" + ("N" if col["min"] is None and col["max"] is None else f"{col['min']}_{col['max']}"))
+            aggtxt = ";".join(parts) if parts else "-"
+        except Exception:  # noqa: BLE001
+            aggtxt = "RAISED"
+        if filters:
+            aggtxt = divtxt = frtxt = "SKIP"
+        else:
+            try:
+                divtxt = _render_divout(e._divisions(), e._fragment_sort_index())
+                try:
+                    frtxt = _ints(frags.index(fr) for fr in e.fragments)
+                except IndexError:
+                    frtxt = "IDXERR"
+            except Exception:  # noqa: BLE001
+                divtxt, frtxt = "RAISED", "RAISED"
+        try:
+            v = _literal(e._simplify_up(Lengths(e), {}))
+            lens = "NONE" if v is None else "L " + _ints(v)
+        except Exception:  # noqa: BLE001
+            lens = "RAISED"
+        try:
+            v = _literal(e._simplify_up(Len(e), {}))
+            ln = "NONE" if v is None else str(int(v))
+        except Exception:  # noqa: BLE001
+            ln = "RAISED"
+        return f"{aggtxt} => {divtxt} => frags={frtxt} => lengths={lens} len={ln}"
+    finally:
+        for fi in finfos:
+            pqm._STATS_CACHE.pop(tokenize(fi), None)
+
+
+def _arrow_req(files, calc, sel, filters):
+    return f"parquet arrowstats calc={int(calc)} filters={int(filters)} sel={_enc_sel(sel)} files={_enc_files(files)}"
+
+
+def _intervals(lo, hi):
+    return [(a, b) for a in range(lo, hi + 1) for b in range(a, hi + 1)]
+
+
+def _rand_files(rng, n, shape):
+    """n single- or multi-row-group files whose (min, max) follow `shape`"""
+    files = []
+    cur = rng.randint(-20, 20)
+    ivs = []
+    for _ in range(n):
+        w = rng.choice([0, 0, 1, 3, 7])
+        gap = rng.choice([0, 0, 1, 2, 5]) if shape in ("sorted", "reversed", "shuffled", "touching") else rng.randint(-6, 4)
+        if shape == "touching":
+            gap = 0
+        lo = cur + gap
+        ivs.append((lo, lo + w))
+        cur = lo + w
+    if shape == "reversed":
+        ivs.reverse()
+    elif shape in ("shuffled", "overlap"):
+        rng.shuffle(ivs)
+    elif shape == "dups":
+        ivs = [rng.choice(ivs) for _ in range(n)]
+    for iv in ivs:
+        nrg = rng.choice([1, 1, 1, 2, 3])
+        if nrg == 1:
+            rgs = [(iv, rng.randint(1, 9))]
+        else:
+            cuts = sorted(rng.randint(iv[0], iv[1]) for _ in range(nrg - 1))
+            bounds = [iv[0]] + cuts + [iv[1]]
+            rgs = [((bounds[k], bounds[k + 1]), rng.randint(1, 9)) for k in range(nrg)]
+            rng.shuffle(rgs)
+        files.append((sum(r for _, r in rgs), rgs))
+    return files
+
+
+def _has_dup_tuples(files):
+    mm = []
+    for _, rgs in files:
+        st = [s for s, _ in rgs if not isinstance(s, str)]
+        if len(st) != len(rgs) or not st:
+            return True
+        mm.append((min(s[0] for s in st), max(s[1] for s in st)))
+    return len(set(mm)) != len(mm)
+
+
+def fam_arrow_statistics(ctx):
+    f = Family("arrow_statistics[_extract_stats/_aggregate_statistics_to_file/_divisions_from_statistics/_division_from_stats/"
+               "_fragment_sort_index/fragments/_divisions/_get_lengths/_simplify_up(Lengths,Len)]")
+    rng = ctx.rng
+    cases = []  # (files, calc, sel, filters)
+    ivs = _intervals(0, 3)
+    one = lambda iv, rows: (rows, [(iv, rows)])
+    # exhaustive: every list of <= 3 single-row-group files over the 10 intervals of {0..3}
+    small = [[one(a, 2)] for a in ivs]
+    small += [[one(a, 2), one(b, 3)] for a in ivs for b in ivs]
+    triples = [[one(a, 2), one(b, 3), one(c, 5)] for a in ivs for b in ivs for c in ivs]
+    if ctx.quick:
+        rng.shuffle(triples)
+        triples = triples[:250]
+    for fl in small + triples:
+        cases.append((fl, True, None, False))
+    # hand-picked shapes: sorted, reversed, overlapping, touching, contained, duplicates, ill-formed (min > max),
+    # missing statistics (no min/max, no statistics object, file without row groups), several row groups
+    special = [
+        [],
+        [one((0, 4), 3), one((5, 9), 4)], [one((5, 9), 4), one((0, 4), 3)], [one((0, 10), 3), one((5, 15), 4)],
+        [one((0, 10), 3), one((10, 15), 4)], [one((10, 15), 4), one((0, 10), 3)], [one((0, 10), 3), one((2, 3), 4)],
+        [one((1, 1), 1), one((1, 1), 2), one((1, 2), 3)], [one((4, 2), 3), one((3, 3), 1)], [one((3, 1), 3)],
+        [(3, [("N", 3)])], [(3, [("N", 3)]), (2, [("N", 2)])], [(3, [("N", 3)]), one((0, 4), 2)], [one((0, 4), 2), (3, [("N", 3)])],
+        [(3, [("X", 3)])], [one((0, 4), 2), (3, [("X", 3)])], [(7, [])], [one((0, 4), 2), (7, [])], [(7, []), one((0, 4), 2)],
+        [(7, [((5, 9), 3), ((0, 6), 4)]), (5, [((10, 12), 5)])], [(7, [((5, 9), 3), ("N", 4)])], [(7, [("N", 3), ("N", 4)])],
+        [(9, [((5, 9), 3), ((0, 6), 4)])], [(4, [((0, 1), 4)]), (6, [((1, 5), 2), ((7, 9), 4)]), (1, [((6, 6), 1)])],
+    ]
+    for fl in special:
+        n = len(fl)
+        for calc in (True, False):
+            for sel in (None, [], [0], list(range(n))[::-1], [0] * 2 + [max(n - 1, 0)], [n]):
+                cases.append((fl, calc, sel, False))
+        cases.append((fl, True, None, True))
+        cases.append((fl, True, [0], True))
+    # seeded random
+    for _ in range(250 if ctx.quick else 6000):
+        shape = rng.choice(["sorted", "reversed", "shuffled", "overlap", "touching", "dups"])
+        n = rng.choice([1, 2, 2, 3, 3, 4, 5, 6, 8, 12, 16, 20, 40])
+        fl = _rand_files(rng, n, shape)
+        if n > 16 and _has_dup_tuples(fl):
+            # numpy's quicksort is not stable beyond 16 elements: equal (min, max) tuples have no defined order there
+            n = 16
+            fl = fl[:16]
+        if rng.random() < 0.08:
+            j = rng.randrange(n)
+            fl[j] = (fl[j][0], [(rng.choice(["N", "X"]), fl[j][0])]) if rng.random() < 0.8 else (fl[j][0], [])
+        r = rng.random()
+        sel = None if r < 0.4 else [rng.randrange(n) for _ in range(rng.randint(1, n + 2))]
+        if sel is not None and rng.random() < 0.05:
+            sel.append(n)
+        cases.append((fl, rng.random() < 0.85, sel, rng.random() < 0.05))
+    reqs, code, inputs, nontriv = [], [], [], []
+    for fl, calc, sel, filters in cases:
+        reqs.append(_arrow_req(fl, calc, sel, filters))
+        code.append(_arrow_real(fl, calc, sel, filters))
+        inputs.append({"files": _enc_files(fl), "calc": calc, "sel": sel, "filters": filters})
+        nontriv.append(" K " in code[-1])
+    model = drive(reqs)
+    model = [m if not inp["filters"] else _skip_filtered(m) for m, inp in zip(model, inputs)]
+    f.compare(inputs, code, model, nontriv)
+    f.exhaustive = not ctx.quick
+    f.note = ("exhaustive: all lists of <= 3 files over the 10 intervals of {0..3}" + (" (250 sampled triples)" if ctx.quick else "")
+              + "; shapes: sorted/reversed/shuffled/overlapping/touching/duplicate/ill-formed/missing statistics/several row groups; "
+              "random up to 40 files x selections with repetitions")
+    return f
+
+
+def _skip_filtered(m):
+    """with filters the code side does not ask for divisions/fragments (they would query the pyarrow dataset)"""
+    p = m.split(" => ")
+    if len(p) == 4:
+        p[0], p[1], p[2] = "SKIP", "SKIP", "frags=SKIP"
+    return " => ".join(p)
+
+
+class _StubEngine:
+    def __init__(self, parts, stats, n):
+        self.parts, self.stats, self.n = parts, stats, n
+
+    def _construct_collection_plan(self, dataset_info):
+        return list(self.parts), [dict(s, columns=[dict(c) for c in s["columns"]]) for s in self.stats], {}
+
+    def __dask_tokenize__(self):
+        return ("verif-c18-stub-engine", os.getpid(), self.n)
+
+
+def _fstat(rows, col):
+    if col == "X":
+        c = {"null_count": 1}
+    elif col == "O":
+        c = {"name": "idx"}
+    elif col == "N":
+        c = {"name": "idx", "min": None, "max": None, "null_count": rows}
+    else:
+        c = {"name": "idx", "min": col[0], "max": col[1], "null_count": 0}
+    return {"num-rows": rows, "total_byte_size": 10, "columns": [c]}
+
+
+def _enc_fstats(stats):
+    return "-" if not stats else ";".join(f"{r}:{_enc_mm(c)}" for r, c in stats)
+
+
+def _fsspec_real(nparts, stats, gather, calc, single, sel, filters):
+    from dask_expr._expr import Lengths
+    from dask_expr._reductions import Len
+    from dask_expr.io import parquet as pqm
+
+    _STUB_N[0] += 1
+    parts = [{"piece": (f"f{j}", [0], [])} for j in range(nparts)]
+    eng = _StubEngine(parts, [_fstat(*st) for st in stats], _STUB_N[0])
+    info = {"checksum": f"verif-c18-{os.getpid()}-{_STUB_N[0]}", "base_meta": _stub_meta_frame(), "blocksize": None, "split_row_groups": False,
+            "fs": None, "aggregation_depth": False, "gather_statistics": gather, "calculate_divisions": calc,
+            "index": ["idx"] if single else ["idx", "b"], "kwargs": {"dtype_backend": None}}
+    # user filters on a column without statistics: `apply_filters` keeps every part
+    e = pqm.ReadParquetFSSpec("/nonexistent/verif-c18", calculate_divisions=calc, filters=None, engine=eng, _partitions=sel,
+                              kwargs={}, _dataset_info_cache=info)
+    try:
+        pl = e._plan
+    except Exception:  # noqa: BLE001
+        return "RAISED"
+    if pl["empty"]:
+        ptxt = "-"
+    else:
+        ptxt = _ints(parts.index(p) for p in pl["parts"])
+    st = []
+    for s_ in pl["statistics"]:
+        c = s_["columns"][0]
+        if "name" not in c:
+            cc = "X"
+        elif "min" not in c:
+            cc = "O"
+        elif c["min"] is None:
+            cc = "N"
+        else:
+            cc = f"{c['min']}_{c['max']}"
+        st.append(f"{s_['num-rows']}:{cc}")
+    divs = list(e._divisions())
+    known = not all(d is None for d in divs)
+    divtxt = _render_divout(divs, list(range(len(divs) - 1)) if known else None)
+    if filters:
+        e = e.substitute_parameters({"filters": [("a", ">", 0)]})
+    if not pl["statistics"] and not filters:
+        lens = ln = "SKIP"  # the code would open the files (`_collect_pq_statistics`)
+    else:
+        try:
+            v = _literal(e._simplify_up(Lengths(e), {}))
+            lens = "NONE" if v is None else "L " + _ints(v)
+        except Exception:  # noqa: BLE001
+            lens = "RAISED"
+        try:
+            v = _literal(e._simplify_up(Len(e), {}))
+            ln = "NONE" if v is None else str(int(v))
+        except Exception:  # noqa: BLE001
+            ln = "RAISED"
+    return f"empty={int(pl['empty'])} parts={ptxt} stats={';'.join(st) if st else '-'} div={divtxt} lengths={lens} len={ln}"
+
+
+def fam_fsspec_plan(ctx):
+    f = Family("fsspec_plan[ReadParquetFSSpec._plan/_align_statistics/_calculate_divisions/sorted_columns/_divisions/"
+               "_get_lengths/_update_length_statistics/_simplify_up(Lengths,Len)]")
+    rng = ctx.rng
+    cols = _intervals(0, 2) + ["N", "O", "X"]
+    cases = []  # (nparts, stats, gather, calc, single, sel, filters)
+    ent = [(r, c) for c in cols for r in (0, 2)]
+    small = [[]] + [[a] for a in ent] + [[a, (b[0] + 1 if b[0] else 0, b[1])] for a in ent for b in ent]
+    triples = [[(2, a), (3, b), (5, c)] for a in cols for b in cols for c in cols]
+    if ctx.quick:
+        rng.shuffle(triples)
+        triples = triples[:200]
+        rng.shuffle(small)
+        small = small[:150]
+    for st in small + triples:
+        cases.append((len(st), st, True, True, True, None, False))
+    special = [
+        [(3, (0, 4)), (4, (5, 9))], [(4, (5, 9)), (3, (0, 4))], [(3, (0, 10)), (4, (5, 15))], [(3, (0, 10)), (4, (10, 15))],
+        [(3, (0, 10)), (4, (2, 3))], [(1, (1, 1)), (2, (1, 1)), (3, (1, 2))], [(3, (4, 2)), (1, (3, 3))], [(3, (3, 1))],
+        [(3, (0, 4)), (0, "N"), (2, (5, 9))], [(3, "N"), (2, (5, 9))], [(3, "N"), (2, "N")], [(3, (0, 4)), (2, "N")],
+        [(3, "X"), (2, (5, 9))], [(3, (0, 4)), (2, "X")], [(3, "O"), (2, (5, 9))], [(3, (0, 4)), (2, "O")],
+        [(0, (0, 4)), (0, (5, 9))], [(3, (0, 4)), (1, (4, 4)), (2, (5, 9))],
+    ]
+    for st in special:
+        n = len(st)
+        for g, c, s1 in ((True, True, True), (False, True, True), (True, False, True), (True, True, False)):
+            cases.append((n, st, g, c, s1, None, False))
+        for sel in ([], [0], list(range(n))[::-1], [0, 0, n - 1], [n]):
+            cases.append((n, st, True, True, True, sel, False))
+        cases.append((n + 1, st, True, True, True, None, False))  # parts and statistics not aligned
+        cases.append((n, st, True, True, True, None, True))
+        cases.append((n, st, True, True, True, [0], True))
+    for _ in range(250 if ctx.quick else 6000):
+        n = rng.choice([1, 2, 3, 3, 4, 5, 8, 12, 30])
+        shape = rng.choice(["sorted", "sorted", "touching", "reversed", "shuffled", "overlap", "dups"])
+        fl = _rand_files(rng, n, shape)
+        st = []
+        for _, rgs in fl:
+            mm = (min(s[0] for s, _ in rgs), max(s[1] for s, _ in rgs))
+            st.append((rng.choice([0, 1, 2, 3, 5, 8]) if rng.random() < 0.9 else 0, mm))
+        if rng.random() < 0.1:
+            j = rng.randrange(n)
+            st[j] = (st[j][0], rng.choice(["N", "O", "X"]))
+        kept = sum(1 for r, _ in st if r > 0)
+        sel = None if rng.random() < 0.4 or kept == 0 else [rng.randrange(kept) for _ in range(rng.randint(1, kept + 2))]
+        if sel is not None and rng.random() < 0.05:
+            sel.append(kept)
+        cases.append((n if rng.random() < 0.95 else n + 1, st, rng.random() < 0.9, rng.random() < 0.9, rng.random() < 0.9, sel, rng.random() < 0.05))
+    reqs, code, inputs, nontriv = [], [], [], []
+    for nparts, st, g, c, s1, sel, filters in cases:
+        reqs.append(f"parquet fsspecplan gather={int(g)} calc={int(c)} single={int(s1)} filters={int(filters)} sel={_enc_sel(sel)} "
+                    f"nparts={nparts} stats={_enc_fstats(st)}")
+        code.append(_fsspec_real(nparts, st, g, c, s1, sel, filters))
+        inputs.append({"nparts": nparts, "stats": _enc_fstats(st), "gather": g, "calc": c, "single": s1, "sel": sel, "filters": filters})
+        nontriv.append("div=K" in code[-1])
+    f.compare(inputs, code, drive(reqs), nontriv)
+    f.exhaustive = not ctx.quick
+    f.note = ("exhaustive: all statistics lists of <= 2 parts over {6 intervals of {0..2}, None, no min/max, no name} x {0 rows, rows}, "
+              "all triples with rows" + (" (sampled in the quick tier)" if ctx.quick else "") + "; flags; misaligned parts; random up to 30 parts")
+    return f
+
+
 def families(ctx):
-    return [fam_fusion_buckets, fam_guard]
+    return [fam_fusion_buckets, fam_guard, fam_arrow_statistics, fam_fsspec_plan]
 
 
 # --------------------------------------------------------------------------- end-to-end
